@@ -355,6 +355,11 @@ def check_versions(case):
         if case['layout'] == 'one':
             Ls = [build_L('L', ('i1', None), [], requires=[{'id': 'E', 'version': '1'}, {'id': 'E', 'version': '2'}])]
             sel = dict(lexicon='L:1')
+        elif case['layout'] == 'shared':
+            # both selected lexicons declare the same dependencies: each expand lexicon is listed once
+            both = [{'id': 'E', 'version': '1'}, {'id': 'E', 'version': '2'}]
+            Ls = [build_L('L', ('i1', None), [], requires=both), build_L('M', ('i2', None), [], requires=both)]
+            sel = dict(lexicon='L:1 M:1')
         else:
             Ls = [build_L('L', ('i1', None), [], requires=[{'id': 'E', 'version': '1'}]),
                   build_L('M', ('i2', None), [], requires=[{'id': 'E', 'version': '2'}])]
@@ -408,7 +413,7 @@ def space(tier, seed):
         for m2 in ([3, 12, 33] if tier == 'thorough' else [12]):
             cases.append({'e_ilis': ['i1', 'i2', 'i3'], 'e_mask': mask,
                           'e2': {'ilis': ['i3', 'i1', 'i2'], 'mask': m2}, 'Ls': Ls})
-    for layout in ('one', 'two'):
+    for layout in ('one', 'two', 'shared'):
         for installed in (['1', '2'], ['2', '1'], ['1'], ['2'], []):
             cases.append({'versions': True, 'layout': layout, 'installed': installed})
     for declared in ([], ['E'], ['E', 'F'], ['F']):
